@@ -442,6 +442,20 @@ def keep_same_name_other_location(d, rng):
     return "same parameter name in two locations"
 
 
+def edit_bad_items_pattern(d, rng):
+    p, m, op = rng.choice(_ops(d))
+    code = rng.choice(sorted(op["responses"]))
+    op["responses"][code]["schema"] = {"type": "array", "items": {"type": "string", "pattern": "^(unclosed%d$" % rng.randrange(99)}}
+    return "items of a response schema with an invalid pattern"
+
+
+def edit_schema_array_no_items(d, rng):
+    p, m, op = rng.choice(_ops(d))
+    code = rng.choice(sorted(op["responses"]))
+    op["responses"][code]["schema"] = {"type": "array"}
+    return "array response schema without items"
+
+
 def keep_case_variant_names(d, rng):
     p, m, op = rng.choice(_ops(d))
     loc = rng.choice(["query", "header"])
@@ -466,7 +480,8 @@ BREAKING = [("unique operation ids", edit_dup_opid, False), ("path parameters ma
             ("references resolve", edit_dangling_ref, False), ("no duplicate inherited properties", edit_dup_inherited, False),
             ("no circular ancestry", edit_circular, False), ("patterns are valid", edit_bad_pattern, False),
             ("no empty placeholder", edit_empty_placeholder, False), ("no overlapping paths", edit_overlap, True),
-            ("at most one body parameter", edit_body_via_shared, False)]
+            ("at most one body parameter", edit_body_via_shared, False), ("patterns are valid", edit_bad_items_pattern, False),
+            ("arrays declare items", edit_schema_array_no_items, False)]
 HARMLESS = [keep_required_via_additional, keep_required_via_nested_additional, keep_case_variant_names, keep_same_opid_other_case, keep_two_placeholders_one_segment, keep_same_name_other_location]
 
 
